@@ -3,6 +3,8 @@
    concurrently with use (documented as unsupported, outside the property), TLC must find the
    violation named in the configuration.  tools/props/c13.py fails with an infrastructure error
    if one of them passes - the invariants of Conc would have lost their teeth. *)
+(* ConcNeg_cmdin_*: CopyArgs = FALSE is the cmdMinifier before fix fd040d4 (the struct copy shared the argument
+   array); it stays here as a negative control.  ConcNeg_cmdin_fixed = the code as it is now. *)
 EXTENDS Conc
 RegShapes == {"htmlS", "add"}
 InlineShapes == {"cssi", "css"}
